@@ -15,14 +15,16 @@ ENGINE = "iso14229-reference"
 TECHNIQUE = (
     "runtime oracle on the real response parsers: re-encode equality (.pdu == received bytes) for every typed result and "
     "field equality against an independent ISO 14229-1 reference decoder, over generated valid responses, exhaustive short "
-    "byte strings and mutated neighbours"
+    "byte strings and mutated neighbours; stored-form monitor: typed responses (incl. 4096..70000 byte replies) handed to the real "
+    "DBHandler, scan_result.response_pdu / response_data read back from sqlite and compared with the object's pdu / data"
 )
 LEVEL_TEXT = (
     "Exploration with exhaustive sub-spaces: UDSResponse.parse_dynamic and every concrete response class' from_pdu are run on "
     "(a) valid responses of every response kind built from the ISO layouts over field boundaries and record lengths, (b) every "
     "byte string of total length <=2 (quick: plus sampled length 3; thorough: every string of length <=3) for each of the 20 "
     "response first bytes, (c) truncations, 1..3 byte extensions and all single-bit flips of valid responses. A typed result must "
-    "re-serialise to the received bytes and expose the reference decoder's field values. Held = held on those byte strings."
+    "re-serialise to the received bytes and expose the reference decoder's field values; (d) typed responses of 1..70000 bytes are "
+    "written through DBHandler.insert_scan_result and the stored columns must be the hex form of the object's pdu and data. Held = held on those byte strings."
 )
 LEVEL_NOTE = "Trusted: reference decoder in vf/iso14229.py. Leniency that loses nothing (accepted and re-encoded identically) is counted, not reported."
 RULE = (
@@ -43,17 +45,17 @@ FIRST_BYTES = iso.RESPONSE_SIDS + [0x7F]
 
 def shards(tier: str, seed: int) -> list[dict[str, Any]]:
     if tier == "quick":
-        return [{"mode": "gen", "n": 8000, "part": i} for i in range(8)] + [{"mode": "short", "len3_samples": 4096, "firsts": FIRST_BYTES[i::5]} for i in range(5)] + [{"mode": "classes", "n": 300}]
+        return [{"mode": "gen", "n": 8000, "part": i} for i in range(8)] + [{"mode": "short", "len3_samples": 4096, "firsts": FIRST_BYTES[i::5]} for i in range(5)] + [{"mode": "classes", "n": 300}, {"mode": "stored", "n": 150}]
     out: list[dict[str, Any]] = [{"mode": "gen", "n": 40000, "part": i} for i in range(8)]
     # every string of length <= 3: split the second byte range to spread the 20 x 65536 strings
     for fb in FIRST_BYTES:
         out.append({"mode": "exh3", "first": fb})
-    out += [{"mode": "classes", "n": 4000}]
+    out += [{"mode": "classes", "n": 4000}, {"mode": "stored", "n": 1500}]
     return out
 
 
 def required_reach(tier: str) -> dict[str, int]:
-    return {"#typed:": 30, "outcome.raw": 1, "outcome.exception": 1, "outcome.typed": 1000, "neighbours": 1000, "from_pdu.classes": 30}
+    return {"#typed:": 30, "outcome.raw": 1, "outcome.exception": 1, "outcome.typed": 1000, "neighbours": 1000, "from_pdu.classes": 30, "stored.rows": 100, "stored.long>4095": 3}
 
 
 # ---- valid response generator (from the ISO layouts) ---------------------------------------------
@@ -282,6 +284,12 @@ def run(ctx: Any, params: dict[str, Any]) -> None:
             for y in range(256):
                 check_bytes(ctx, bytes([fb, x, y]), dyn, "parse_dynamic", service)
         ctx.reach("exhaustive.len<=3.firstbytes")
+    elif mode == "stored":
+        replies = [gen_valid(rng) for _ in range(params["n"])]
+        for n in LONG_LENGTHS:
+            replies += [b"\x62\xf1\x90" + rb(rng, n), b"\x76\x01" + rb(rng, n), b"\x63" + rb(rng, n), b"\x71\x01\x12\x34" + rb(rng, n), b"\x67\x01" + rb(rng, n)]
+        rng.shuffle(replies)
+        stored_form(ctx, replies, service)
     elif mode == "classes":
         # every concrete response class' own from_pdu on valid responses of its service id and their neighbours
         classes = response_classes(service)
@@ -304,11 +312,79 @@ def run(ctx: Any, params: dict[str, Any]) -> None:
                 break
 
 
+LONG_LENGTHS = [20, 21, 255, 4093, 4094, 4095, 4096, 4097, 8190, 8191, 20000, 70000]
+
+
+def stored_form(ctx: Any, replies: list[bytes], service: Any) -> None:
+    """'logs and the database store the re-serialised form as what the ECU sent': hand typed responses to the real DBHandler
+    (insert_scan_result, writer task, sqlite) and compare the stored columns with the object's own pdu / data."""
+    import asyncio
+    import json
+
+    from gallia.db.handler import LogMode
+    from gallia.services.uds.core.service import RawRequest
+
+    from vf import dbharness as dbh
+
+    path = ctx.mkscratch() / "c02-stored.sqlite"
+    kept: list[tuple[bytes, Any]] = []
+
+    async def main() -> None:
+        from datetime import UTC, datetime
+
+        h = await dbh.open_handler(path, "vfwire://c02")
+        try:
+            for b in replies:
+                try:
+                    obj = service.UDSResponse.parse_dynamic(b)
+                except Exception:
+                    continue
+                if type(obj).__name__.startswith("Raw"):
+                    continue
+                now = datetime.now(UTC).astimezone()
+                req = RawRequest(bytes([(b[1] if b[0] == 0x7F else b[0] - 0x40) & 0xFF]) + b[1:3])
+                await dbh.guarded(h.insert_scan_result({"session": 1}, req, obj, None, now, now, LogMode.implicit), "insert_scan_result")
+                kept.append((b, obj))
+        finally:
+            await dbh.close_handler(h)
+
+    asyncio.run(asyncio.wait_for(main(), 600))
+    rows = dbh.read_rows(path)
+    if len(rows) != len(kept):
+        ctx.violation("stored/row-count-differs", f"{len(kept)} typed responses handed to insert_scan_result, {len(rows)} rows stored", {"handed": len(kept), "rows": len(rows)})
+        return
+    for (b, obj), row in zip(kept, rows):
+        ctx.reach("stored.rows")
+        if len(b) > 4095:
+            ctx.reach("stored.long>4095")
+        tag = type(obj).__name__
+        lc = "len>4095" if len(b) > 4095 else "len>20" if len(b) > 20 else "short"
+        ctx.case(("stored", b), True)
+        try:
+            got = dbh.unhex(row["response_pdu"])
+        except ValueError:
+            got = None
+        if got != obj.pdu:
+            ctx.violation(f"stored/response_pdu-differs-from-reserialised/{lc}", f"{tag}: scan_result.response_pdu is not the hex form of the response's pdu ({len(obj.pdu)} bytes; stored text ends {str(row['response_pdu'])[-12:]!r})", {"bytes": b, "stored_tail": str(row["response_pdu"])[-40:], "stored_len": len(str(row["response_pdu"]))})
+        data = json.loads(row["response_data"]) if row["response_data"] else {}
+        if "data" in data:
+            try:
+                dgot = b"" if data["data"] == "''" else bytes.fromhex(data["data"])  # gallia writes empty bytes as ''
+            except ValueError:
+                dgot = None
+            if dgot != obj.data:
+                ctx.violation(f"stored/response_data-differs/{lc}", f"{tag}: response_data.data is not the hex form of the response's data", {"bytes": b, "stored_tail": str(data["data"])[-40:]})
+        ctx.evals(1)
+
+
 def replay(ctx: Any, witness: dict[str, Any]) -> None:
     import gallia.command  # noqa: F401
     from gallia.services.uds.core import service
 
     b = bytes.fromhex(witness["bytes"][4:])
+    if "stored_tail" in witness:
+        stored_form(ctx, [b], service)
+        return
     entry = witness.get("entry", "parse_dynamic")
     if entry == "parse_dynamic":
         check_bytes(ctx, b, service.UDSResponse.parse_dynamic, entry, service)
